@@ -8,7 +8,6 @@ import (
 	"strings"
 
 	"github.com/stackus/goht"
-	"github.com/stackus/goht/internal/proxy"
 )
 
 // number of repetitions used to sample Go's randomised map iteration order
@@ -150,17 +149,6 @@ func init() {
 
 func init() {
 	// addimport <pkg> <line>... ; detailpkg <detail>
-	handlers["addimport"] = func(args []string) string {
-		lines := []string{}
-		for _, a := range args[1:] {
-			lines = append(lines, unhex(a))
-		}
-		n, text := proxy.VerifAddImport(lines, unhex(args[0]))
-		return "ok " + strconv.Itoa(n) + " " + tohex(text)
-	}
-	handlers["detailpkg"] = func(args []string) string {
-		return "ok " + tohex(proxy.VerifDetailPackage(unhex(args[0])))
-	}
 }
 
 func init() {
